@@ -40,6 +40,8 @@ def apply_patch(root, patch):
 def run_rules(prop, root, ctrl):
     fdir, info = export.export(root, force=False)
     prog = Program([os.path.join(fdir, "scrut-lib.json"), os.path.join(fdir, "scrut-bin.json")])
+    from . import cfgq
+    cfgq.set_program(prog)
     ctx = engine.Ctx(prop, prog, root, ctrl, "thorough")
     mod = importlib.import_module("analysis.rules.%s" % prop.lower())
     mod.run(ctx)
